@@ -402,10 +402,16 @@ class _ScoreMatrix:
 
     @classmethod
     def multiply(cls, mask, reference_mask):
+        dtype = np.result_type(mask, reference_mask)
+        if dtype.kind in 'biu':
+            # Integer and boolean (e.g. one-hot int8) masks: accumulate the
+            # products in int64, the mask dtype overflows with many frames.
+            dtype = np.dtype(np.int64)
         score_matrix = np.einsum(
             'K...T,k...T->...kK',
             mask.conj(),
             reference_mask,
+            dtype=dtype,
         )
         return score_matrix
 
